@@ -23,6 +23,8 @@ pub struct Interp {
     pub regs: HashMap<String, HpoGroup>,
     pub dead: bool,
     pub ext: crate::ext::Ext,
+    /// similarity objects that live as long as the case
+    pub sims: crate::ext_c04::SimObjs,
 }
 
 impl Default for Interp {
@@ -33,6 +35,7 @@ impl Default for Interp {
             regs: HashMap::new(),
             dead: false,
             ext: crate::ext::Ext::default(),
+            sims: crate::ext_c04::SimObjs::default(),
         }
     }
 }
